@@ -6,7 +6,7 @@ import ast
 
 from .. import norm
 from ..ctx import Ctx
-from ..facts import PathView, is_call_named, stores_attr
+from ..facts import PathView, dict_writes, is_call_named, stores_attr
 from ..kinds import (
     attribute_stores,
     call_sites,
@@ -259,7 +259,7 @@ def shared_root(ctx: Ctx, rule: str) -> None:
     reg = [c for c in calls_in(fn.node) if call_name(c) == "new_nodes" and ast.unparse(c.args[0]) == "root_for_all"]
     parse = [s for s in ast.walk(fn.node) if isinstance(s, (ast.Assign, ast.AnnAssign)) and ast.unparse(s.targets[0] if isinstance(s, ast.Assign) else s.target) == "root_for_all"]
     ok_parse = len(parse) == 1 and "unique=True" in ast.unparse(parse[0].value) and "'all..internal..noop'" in ast.unparse(parse[0].value)
-    sd = [c for c in calls_in(fn.node) if call_name(c) == "update" and "shared_root" in ast.unparse(c)]
+    sd = [w for w in dict_writes(fn.node, "setup_dict") if isinstance(w[0], ast.Constant) and w[0].value == "shared_root" and isinstance(w[1], ast.Constant) and w[1].value == "yes"]
     never = [s for s in ast.walk(fn.node) if stores_attr(s, "should_run")]
     ok_never = len(never) == 1 and isinstance(never[0].value, ast.Lambda) and isinstance(never[0].value.body, ast.Constant) and never[0].value.body.value is False
     ok = not problems and ok_att and len(reg) == 1 and ok_parse and len(sd) == 1 and ok_never
@@ -314,10 +314,7 @@ def dependency_provenance(ctx: Ctx, rule: str) -> None:
     ctx.record(rule, "PROV", GAPC, f"parameters {nodep}, {objp} are never re-bound (the dependency is resolved for the object asked about)", not rebound,
                {"rebinding_lines": [n.lineno for n in rebound]},
                "" if not rebound else f"the parameter `{rebound[0].id}` is re-bound (line {rebound[0].lineno}): later uses describe another object")
-    ups = [c for c in calls_in(fn.node) if call_name(c) == "update" and ast.unparse(c.func.value) == "setup_dict" and c.args and isinstance(c.args[0], ast.Dict)]
-    got = {}
-    if len(ups) == 1:
-        got = {k.value: ast.unparse(v) for k, v in zip(ups[0].args[0].keys, ups[0].args[0].values) if isinstance(k, ast.Constant)}
+    got = {k.value: ast.unparse(v) for k, v, _ in dict_writes(fn.node, "setup_dict") if isinstance(k, ast.Constant)}
     want = {"dep_suffix": f"{objp}.long_suffix", "dep_type": f"{objp}.key", "dep_id": f"{objp}.id", "require_existence": "'yes'"}
     ctx.record(rule + "d", "PROV", GAPC, "parent parsing is told the dependent object: dep_suffix/dep_type/dep_id of the object asked about, require_existence yes",
                got == want, {"found": got}, "" if got == want else f"the dependency description handed to the parent parser changed: {got}")
@@ -960,15 +957,27 @@ def restriction_updates(ctx: Ctx, rule: str) -> None:
     ctx.touch(fa.ref)
     ctx.touch(fb.ref)
 
-    def body(f):
-        return [ast.dump(s_) for s_ in f.node.body if not (isinstance(s_, ast.Expr) and isinstance(s_.value, ast.Constant))]
+    from .. import semtab
 
-    same = body(fa) == body(fb)
-    src = ast.unparse(fa.node)
-    p = fa.params()[1]
-    exact = (f"for suffix, restriction in {p}.items():" in src and "self.restrs[suffix] = self.restrs.get(suffix, '')" in src
-             and "if restriction.rstrip() not in self.restrs[suffix].splitlines():" in src and "self.restrs[suffix] += restriction" in src
-             and "if restriction != '':" in src)
+    def loop_table(f):
+        body = semtab.strip(f.node.body)
+        if len(body) != 1 or not isinstance(body[0], ast.For) or not isinstance(body[0].target, ast.Tuple) or len(body[0].target.elts) != 2:
+            return None
+        l = body[0]
+        ren = {f.params()[1]: "RESTRS", l.target.elts[0].id: "SUFFIX", l.target.elts[1].id: "RESTR"}
+        if ast.unparse(semtab.renamed(l.iter, ren)) != "RESTRS.items()":
+            return None
+        return semtab.block_table(l.body, (), ren)
+
+    ta, tb = loop_table(fa), loop_table(fb)
+    want = semtab.reference_table("""
+        self.restrs[SUFFIX] = self.restrs.get(SUFFIX, "")
+        if RESTR != "":
+            if RESTR.rstrip() not in self.restrs[SUFFIX].splitlines():
+                self.restrs[SUFFIX] += RESTR
+    """)
+    why = "not a single loop over the items of the given restrictions" if ta is None or tb is None else (semtab.mismatch(ta, tb) or semtab.mismatch(ta, want))
+    same = exact = not why
     ctx.record(rule, "SIBLING", f"{fa.ref} / {fb.ref}", "both update_restrs: per suffix, a non-empty restriction is appended unless that exact line is already present", same and exact, {},
                "" if same and exact else "node and object restrictions are no longer accumulated alike / by whole lines (a restriction contained in another one's text would be dropped: lazy and eager parsing then differ)")
 
